@@ -50,6 +50,18 @@ CHECKS = {
              "reference interpreter as an end-to-end cross-check.",
         note="The monitor reads frames/values through the guarded hooks (incl. on_frame_popped) and never modifies the VM; identity of an "
              "operand is the identity of its data object."),
+    "C11": dict(
+        level="exploration", design="DESIGN.md §3 C11",
+        technique=TECH + ": virtual clock with seeded per-instruction cost puts the deadline at arbitrary instructions; histories of 1-4 runs per VM with clock advanced between runs; virtual-time bound, diagnostic, emptiness and loop-cap rules",
+        text="Seeded search over histories of 1-4 runs on one VM. Each run loads a program from non-terminating families (every loop kind, "
+             "recursion through call, scripts spawning each other, waitUntil {false}, everybody asleep past the deadline, sleep loops) or "
+             "terminating ones; limit 5..500 ms; the virtual clock charges a seeded cost per instruction and poll, so the deadline falls at an "
+             "arbitrary instruction, and is advanced (possibly far beyond the limit) between runs. Rules: the run ends (D1), within limit + "
+             "slack of virtual time (D2), is reported by MaximumRuntimeReached and leaves the VM empty (D3), a run needing far less than the "
+             "limit is never cut however old the VM is (D4). Loop cap: unscheduled while loops with max 1/2/10/10000 (plain, empty body, "
+             "nested, erroring body, exitWith in body) evaluate their condition at most max+1 times (D5).",
+        note="The limit is judged on the virtual clock only; slack = one instruction + 50 polls of the run's clock policy; idle time jumps are "
+             "capped just behind the run's deadline so that time passes through it; each single operator call is assumed to terminate."),
     "C12": dict(
         level="exploration", design="DESIGN.md §3 C12",
         technique=TECH + ": seeded slice schedules and virtual clock over the real scheduler loop, rules R1-R7 over the recorded visit/slice/trace history",
